@@ -82,6 +82,9 @@ class ProgModule(nn.Module):
         torch.manual_seed(spec["seed"] + 1)
         for m in spec["mods"]:
             setattr(self, m["name"], _mk_mod(m))
+        for m in spec["mods"]:
+            if m.get("tie_to"):  # weight tying between two layers (one Parameter, two modules)
+                getattr(self, m["name"]).weight = getattr(self, m["tie_to"]).weight
         self.prog = spec["prog"]
         self.input_names = [i["name"] for i in spec["inputs"]]
         self.output_names = list(spec["outputs"])
@@ -121,6 +124,8 @@ def _plain_op(mod: nn.Module, st: Dict[str, Any], a: List[Any]) -> Any:
     if op == "u_linear":
         w = getattr(mod, st["w"])
         b = getattr(mod, st["b"]) if st.get("b") else None
+        if st.get("ckw"):
+            return U.linear(a[0], w, b, constraint=st.get("constraint", "to_output_scale"))
         return U.linear(a[0], w, b, st.get("constraint", "to_output_scale"))
     if op == "gelu":
         return F.gelu(a[0], approximate=st.get("approximate", "none"))
